@@ -5,10 +5,10 @@ From Coq.Strings Require Import Byte.
 Import ListNotations.
 From GA.Base Require Import Bytes.
 From GA.Gen Require Import Subst.
-From GA.Spec Require Import Local.
+From GA.Spec Require Import Local EDNAFULL.
 From GA.Spec Require LocalEnum.
 From GA.Model Require Import SW.
-From GA.Proofs Require Import SWProofs.
+From GA.Proofs Require Import SWProofs SubstProofs.
 Local Open Scope Z_scope.
 
 (* The validity checker evaluated (in the kernel) on every alignment returned by
@@ -83,6 +83,29 @@ Theorem C09_code_model_optimal_on_medium_words :
             r_score r = LocalEnum.best_enum (LocalEnum.mm 10 (-8)) (-6) (-1) s1 s2.
 Proof. exact code_model_optimal_medium. Qed.
 Print Assumptions C09_code_model_optimal_on_medium_words.
+
+(* the built-in nucleotide matrix of the code, read through the code's own character index, is the published
+   EDNAFULL table (typed in independently, Spec/EDNAFULL.v) on all 15 x 15 IUPAC letters, and respects the
+   IUPAC base sets: a base that belongs to an ambiguity code scores strictly above a base that does not *)
+Theorem C09_dna_matrix_is_ednafull :
+  forall a b, In a iupac_codes -> In b iupac_codes ->
+  exists y, EDNAFULL.ednafull a b = Some y /\ dna_score a b = Some (2 * y).
+Proof. exact dnafull_is_ednafull. Qed.
+Print Assumptions C09_dna_matrix_is_ednafull.
+
+Theorem C09_dna_matrix_respects_iupac_sets :
+  forall code a b, In code iupac_codes -> In a bases -> In b bases -> member a code = true -> member b code = false ->
+  exists sa sb, dna_score code a = Some sa /\ dna_score code b = Some sb /\ sb < sa.
+Proof. exact dnafull_respects_iupac_sets. Qed.
+Print Assumptions C09_dna_matrix_respects_iupac_sets.
+
+(* both built-in matrices are symmetric; an identical pair of standard residues scores strictly above every
+   other pair of its row *)
+Theorem C09_matrices_symmetric_diagonal_dominant :
+  symmetric_on dna_score iupac_codes = true /\ symmetric_on prot_score std_aa = true /\
+  diagonal_dominates dna_score bases = true /\ diagonal_dominates prot_score std_aa = true.
+Proof. exact (conj dna_symmetric (conj prot_symmetric (conj dna_diagonal prot_diagonal))). Qed.
+Print Assumptions C09_matrices_symmetric_diagonal_dominant.
 
 Definition C09_gotoh_is_optimal_statement : Prop :=
   forall (sub : byte -> byte -> Z) opn ext s1 s2 r1 r2 st1 st2 en1 en2,
